@@ -3,11 +3,17 @@ import TantivyModel.Proofs.FaultsInv
 lock file when its flush / delete never fail. -/
 namespace TantivyModel.Faults
 
+@[simp] theorem content_nil : content [] = [] := rfl
+@[simp] theorem content_app (a b : List Seg) : content (a ++ b) = content a ++ content b := by
+  simp [content]
+@[simp] theorem content_single (n : Nat) (q : List Nat) : content [⟨n, q⟩] = q := by
+  simp [content]
+
 /-- facts about a writer that has not reported any error since it was created / rolled back -/
 def CleanW (s : St) (w : Writer) : Prop :=
   w.guard = true ∧ w.killed = false ∧ w.workers = true ∧ w.committed = s.metaSegs ∧
-  w.uncommitted = [] ∧ w.active = s.metaSegs ∧
-  (w.workerErr = false → w.alive = true ∧ w.queue = w.acked) ∧
+  True ∧ w.active = s.metaSegs ∧
+  (w.workerErr = false → w.alive = true ∧ content w.uncommitted ++ w.queue = w.acked) ∧
   (w.workerErr = true → w.alive = false)
 
 def K (s : St) : Prop :=
@@ -81,15 +87,27 @@ theorem K_call (sy : Bool) (fx : Fixes) (cap : Nat) (f : Plan) (s : St) (c : Cal
             intro hc
             obtain ⟨h1, h2, h3, h4, h5, h6, _, _⟩ := hk (by simpa [bombed] using hc)
             simp [CleanW, bombed, newFiles, h1, h2, h3, h4, h5, h6]
-          · simp only [K]
-            intro hc
-            obtain ⟨h1, h2, h3, h4, h5, h6, h7, h8⟩ := hk hc
-            have hal' : w.alive = true := by simpa using hal
-            have hwe : w.workerErr = false := by
-              cases hh : w.workerErr
-              · rfl
-              · have := h8 hh; simp [this] at hal'
-            simp [CleanW, h1, h2, h3, h4, h5, h6, hwe, (h7 hwe).2, hal']
+          · have key : w.clean = true → w.alive = true ∧ w.workerErr = false ∧
+                content w.uncommitted ++ w.queue = w.acked := by
+              intro hc
+              obtain ⟨_, _, _, _, _, _, h7, h8⟩ := hk hc
+              have hal' : w.alive = true := by simpa using hal
+              have hwe : w.workerErr = false := by
+                cases hh : w.workerErr
+                · rfl
+                · have := h8 hh; simp [this] at hal'
+              exact ⟨hal', hwe, (h7 hwe).2⟩
+            split
+            · simp only [K]
+              intro hc
+              obtain ⟨h1, h2, h3, h4, h5, h6, _, _⟩ := hk hc
+              obtain ⟨hal', hwe, hq⟩ := key hc
+              simp [CleanW, newFiles, h1, h2, h3, h4, h6, hwe, hal', ← hq, List.append_assoc]
+            · simp only [K]
+              intro hc
+              obtain ⟨h1, h2, h3, h4, h5, h6, _, _⟩ := hk hc
+              obtain ⟨hal', hwe, hq⟩ := key hc
+              simp [CleanW, h1, h2, h3, h4, h6, hwe, hal', ← hq, List.append_assoc]
   | commit =>
     simp only [call]
     cases hs : s.writer with
@@ -246,7 +264,7 @@ theorem content_append (a b : List Seg) : content (a ++ b) = content a ++ conten
 theorem clean_commit_ok {sy : Bool} {fx : Fixes} {cap : Nat} {f : Plan} {s : St} {w : Writer} (hw : s.writer = some w)
     (hcw : CleanW s w) (hok : (call sy fx cap f s .commit).2 = .ok) :
     f .purge = false ∧ f .saveMeta = false ∧ (sy && f .saveSync2) = false ∧
-    (w.acked ≠ [] → f .worker = false) ∧
+    (w.queue ≠ [] → f .worker = false) ∧
     content (call sy fx cap f s .commit).1.metaSegs = content s.metaSegs ++ w.acked := by
   obtain ⟨h1, h2, h3, h4, h5, h6, h7, h8⟩ := hcw
   cases hwe : w.workerErr with
@@ -260,17 +278,18 @@ theorem clean_commit_ok {sy : Bool} {fx : Fixes} {cap : Nat} {f : Plan} {s : St}
       obtain ⟨_, hp, hsv, hs2, hm⟩ := updaterCommit_ok hok
       refine ⟨hp, hsv, hs2, ?_, ?_⟩
       · intro hne
-        rw [← h10] at hne
         cases hq : w.queue with
         | nil => exact absurd hq hne
-        | cons a as => simpa [hq] using hcond
+        | cons a as =>
+          have hin : inFlight fx w = true := by simp [inFlight, hq]
+          simpa [hin] using hcond
       · rw [if_neg hcond, hm]
         unfold flushW
         split
         · rename_i hq
           have : w.queue = [] := by simpa using hq
-          simp [h4, h5, ← h10, this]
-        · simp [h4, h5, ← h10, content]
+          simp [h4, ← h10, this]
+        · simp [h4, ← h10, List.append_assoc]
 
 theorem updaterCommit_err {sy : Bool} {f : Plan} {s : St} {w : Writer} (h : (updaterCommit sy f s w).2 = .err) :
     (updaterCommit sy f s w).1.metaSegs = s.metaSegs ∨
@@ -321,8 +340,8 @@ theorem clean_commit_err {sy : Bool} {fx : Fixes} {cap : Nat} {f : Plan} {s : St
         split
         · rename_i hq
           have : w.queue = [] := by simpa using hq
-          simp [h4, h5, ← h10, this]
-        · simp [h4, h5, ← h10, content]
+          simp [h4, ← h10, this]
+        · simp [h4, ← h10, List.append_assoc]
 
 theorem rollback_noFault (sy : Bool) (fx : Fixes) (cap : Nat) (s1 : St) (w1 : Writer) (h : s1.writer = some w1)
     (hg : w1.guard = true) :
@@ -360,8 +379,8 @@ theorem commit_sync2_clean {fx : Fixes} {cap : Nat} {f : Plan} {s : St} {w : Wri
   split
   · rename_i hq
     have : w.queue = [] := by simpa using hq
-    simp [commitRegs, h4, h5, ← h10, this]
-  · simp [commitRegs, h4, h5, ← h10, content]
+    simp [commitRegs, h4, ← h10, this]
+  · simp [commitRegs, h4, ← h10, List.append_assoc]
 
 /-! ### the lock file -/
 
@@ -401,7 +420,9 @@ theorem stale_call (sy : Bool) (fx : Fixes) (cap : Nat) (f : Plan) (hf : LockSaf
           · simpa [stale] using h
         · split
           · simpa [stale, bombed, newFiles] using h
-          · simpa [stale] using h
+          · split
+            · simpa [stale, newFiles] using h
+            · simpa [stale] using h
   | commit =>
     simp only [call]
     cases hs : s.writer with
